@@ -45,6 +45,17 @@ def conc_arr(a, what="array"):
     return out
 
 
+def _to_int_terms(a):
+    """dtype=int conversion of an object array: real-sorted terms are truncated toward zero (ToInt(ToReal(x)) folds to x)"""
+    out = a.copy()
+    for idx, v in real_np.ndenumerate(a):
+        if isinstance(v, Sym) and not v.isint:
+            out[idx] = core.mk(z3.If(v.e >= 0, z3.ToInt(v.e), -z3.ToInt(-v.e)))
+        elif isinstance(v, (float, Fraction)) or (type(v).__module__ == 'numpy' and 'float' in type(v).__name__):
+            out[idx] = int(v)
+    return out
+
+
 def objarr(a):
     a = real_np.asarray(a)
     return a if a.dtype == object else a.astype(object)
@@ -80,7 +91,10 @@ class NPProxy:
         if self._fmt is not None and dtype in (int, float) and self._fmt.has_ph(obj):
             return self._fmt.conv_array(obj, dtype)
         if has_sym(obj):
-            return real_np.array(obj, dtype=object, ndmin=ndmin)
+            a = real_np.array(obj, dtype=object, ndmin=ndmin)
+            if dtype is int or dtype == 'int':
+                a = _to_int_terms(a)
+            return a
         return real_np.array(obj, dtype=dtype, ndmin=ndmin, **kw)
 
     def asarray(self, obj, dtype=None, **kw):
@@ -135,13 +149,22 @@ class NPProxy:
             x = float(conc_scalar(x, "rad2deg argument"))
         return real_np.rad2deg(x)
 
+    def floor(self, x):
+        if has_sym(x):
+            a = objarr(x)
+            out = real_np.empty(a.shape, dtype=object)
+            for idx, v in real_np.ndenumerate(a):
+                out[idx] = real_np.float64(real_math.floor(v))
+            return out if a.shape else out[()]
+        return real_np.floor(x)
+
     def ceil(self, x):
         if has_sym(x):
             a = objarr(x)
             out = real_np.empty(a.shape, dtype=object)
             for idx, v in real_np.ndenumerate(a):
-                out[idx] = -((-v) // 1) if isinstance(v, Sym) else real_math.ceil(v)
-            return out
+                out[idx] = real_np.float64(real_math.ceil(v))
+            return out if a.shape else out[()]
         return real_np.ceil(x)
 
     def cross(self, a, b):
